@@ -81,7 +81,7 @@ def validate_spec(rep: Reporter, cfg: Cfg, spec, seen: set, **extra) -> None:
         return
     seen.add(s)
     try:
-        probs = count_problems(spec, cfg.start(), N) + structure_problems(spec, cfg.start(), dw.make_pack(cfg.pack))
+        probs = count_problems(spec, cfg.start(), N) + structure_problems(spec, cfg.start(), cfg.make_pack())
     except Exception as e:  # noqa: BLE001
         rep.v("final-specification-invalid", call_site(e), f"{type(e).__name__}: {str(e)[:200]}", **extra)
         return
